@@ -463,4 +463,368 @@ theorem full_within_one (coef : Blk) (hb : ∀ v ∈ coef.toList, v.natAbs ≤ 2
   generalize roundDiv s (S * S) = n at hint ⊢
   split <;> split <;> (try split) <;> (try split) <;> omega
 
+/-! ### the first-row and first-column shortcuts -/
+
+/-- `finish_bound` when the sign is taken from another value of the same sign (the shortcuts round `x * B00 / 4` with `x.signum()`) -/
+theorem finish_bound' (Y X : F) (M : ℚ) (hM : |val Y| ≤ M) (hneg : X.m < 0 → val Y ≤ 0) (hpos : ¬ X.m < 0 → 0 ≤ val Y) :
+    |((trunc (add (quarter Y) (halfSignum X)) : Int) : ℚ) - val Y / 4| ≤ 1 / 2 + (M * u + u) := by
+  have hu := u_pos
+  have hu1 : u ≤ 1 / 16 := by unfold u; norm_num
+  have hM0 : 0 ≤ M := le_trans (abs_nonneg _) hM
+  have hq := quarter_err Y
+  have hr := add_err (quarter Y) (halfSignum X)
+  have hs := halfSignum_val X
+  obtain ⟨tb1, tb2⟩ := trunc_bounds (add (quarter Y) (halfSignum X))
+  generalize val (add (quarter Y) (halfSignum X)) = R at *
+  generalize ((trunc (add (quarter Y) (halfSignum X)) : Int) : ℚ) = t at *
+  generalize val (quarter Y) = Q at *
+  generalize hsv : val (halfSignum X) = s at *
+  by_cases hm : X.m < 0
+  · rw [if_pos hm] at hs
+    have hX := hneg hm
+    generalize val Y = x at *
+    have hxM : -M ≤ x := by have := abs_le.1 hM; linarith
+    rw [abs_of_nonpos (by linarith : x / 4 ≤ 0)] at hq
+    obtain ⟨q1, q2⟩ := abs_le.1 hq
+    have hQ : Q ≤ 0 := by nlinarith
+    have hQs : Q + s < 0 := by rw [hs]; linarith
+    rw [abs_of_neg hQs] at hr
+    obtain ⟨r1, r2⟩ := abs_le.1 hr
+    have hR : R ≤ 0 := by nlinarith
+    obtain ⟨t1, t2⟩ := tb2 hR
+    rw [abs_le]
+    constructor <;> nlinarith
+  · rw [if_neg hm] at hs
+    have hX := hpos hm
+    generalize val Y = x at *
+    have hxM : x ≤ M := by have := abs_le.1 hM; linarith
+    rw [abs_of_nonneg (by linarith : 0 ≤ x / 4)] at hq
+    obtain ⟨q1, q2⟩ := abs_le.1 hq
+    have hQ : 0 ≤ Q := by nlinarith
+    have hQs : 0 < Q + s := by rw [hs]; linarith
+    rw [abs_of_pos hQs] at hr
+    obtain ⟨r1, r2⟩ := abs_le.1 hr
+    have hR : 0 ≤ R := by nlinarith
+    obtain ⟨t1, t2⟩ := tb1 hR
+    rw [abs_le]
+    constructor <;> nlinarith
+
+theorem getD_map_ofInt (l : List Int) (f : Nat) : (l.toArray.map F32.ofInt).getD f F32.zero = F32.ofInt (l.getD f 0) := by
+  by_cases hf : f < l.length
+  · simp [Array.getD_eq_getD_getElem?, List.getD_eq_getElem?_getD, hf]
+  · have h1 : (l.toArray.map F32.ofInt).getD f F32.zero = F32.zero := by
+      simp [Array.getD_eq_getD_getElem?, hf]
+    have h2 : l.getD f 0 = 0 := by simp [List.getD_eq_getElem?_getD, hf]
+    rw [h1, h2]; rfl
+
+theorem bq00_pos : 0 < bq 0 0 := by
+  rw [basis_val]
+  have : (Gen.BASIS.getD 0 #[]).getD 0 (0, 0) = (11863283, -24) ∨ 0 < ((Gen.BASIS.getD 0 #[]).getD 0 (0, 0)).1 := by
+    right; decide +kernel
+  rcases this with h | h
+  · rw [h]; positivity
+  · have : (0 : ℚ) < (((Gen.BASIS.getD 0 #[]).getD 0 (0, 0)).1 : ℚ) := by exact_mod_cast h
+    exact mul_pos this (two_zpow_pos _)
+
+theorem bq0_const (y : Nat) (hy : y < 8) : bq 0 y = bq 0 0 := by
+  rw [basis_val, basis_val]
+  have : ∀ y, y < 8 → (Gen.BASIS.getD 0 #[]).getD y (0, 0) = (Gen.BASIS.getD 0 #[]).getD 0 (0, 0) := by decide +kernel
+  rw [this y hy]
+
+/-- the value the shortcuts round: `idct_1d` of the eight coefficients at position `p`, times `B00` -/
+theorem line_value (l : List Int) (hb : ∀ v ∈ l, v.natAbs ≤ 2048) (p : Nat) (hp : p < 8) :
+    ∃ X Y : F, Y = mul X (basis 0 0) ∧ |val Y - T1 l 0 p * bq 0 0| ≤ M1 * u + E1 ∧ |val Y| ≤ 2 * M1 ∧
+      (X.m < 0 → val Y ≤ 0) ∧ (¬ X.m < 0 → 0 ≤ val Y) ∧
+      ((idct1d (l.toArray.map F32.ofInt)).map finishRow).getD p (0, false) =
+        (toI16Clamp (add (quarter Y) (halfSignum X)), (add (quarter Y) (halfSignum X)).bad) := by
+  have hu := u_pos
+  have hu1 : u ≤ 1 := by unfold u; norm_num
+  have h := idct1d_err (l.toArray.map F32.ofInt) (fun c => coefQ l 0 c) 2049 (2048 * u) (by norm_num) (by positivity)
+    (by
+      intro f _
+      rw [getD_map_ofInt]
+      have : coefQ l 0 f = ((l.getD f 0 : Int) : ℚ) := by unfold coefQ; simp
+      rw [this]
+      exact ofInt_bounds _ (getD_bound l hb _))
+    p hp
+  obtain ⟨h1, h2⟩ := h
+  refine ⟨(idct1d (l.toArray.map F32.ofInt)).getD p F32.zero, mul ((idct1d (l.toArray.map F32.ofInt)).getD p F32.zero) (basis 0 0),
+    rfl, ?_, ?_, ?_, ?_, ?_⟩
+  all_goals generalize hX : (idct1d (l.toArray.map F32.ofInt)).getD p F32.zero = X at *
+  · have hm := mul_err X (basis 0 0)
+    have hb0 := basis_abs 0 0
+    have hprod : |val X * val (basis 0 0)| ≤ M1 := by
+      rw [abs_mul]
+      calc |val X| * |val (basis 0 0)| ≤ M1 * 1 := mul_le_mul h2 hb0 (abs_nonneg _) (by unfold M1; norm_num)
+        _ = M1 := mul_one _
+    have hm' : |val (mul X (basis 0 0)) - val X * val (basis 0 0)| ≤ M1 * u :=
+      le_trans hm (mul_le_mul_of_nonneg_right hprod (le_of_lt hu))
+    have hd : |val X * val (basis 0 0) - T1 l 0 p * bq 0 0| ≤ E1 := by
+      unfold bq
+      rw [← sub_mul, abs_mul]
+      calc |val X - T1 l 0 p| * |val (basis 0 0)| ≤ E1 * 1 := mul_le_mul h1 hb0 (abs_nonneg _) (by unfold E1; positivity)
+        _ = E1 := mul_one _
+    have t : val (mul X (basis 0 0)) - T1 l 0 p * bq 0 0 =
+        (val (mul X (basis 0 0)) - val X * val (basis 0 0)) + (val X * val (basis 0 0) - T1 l 0 p * bq 0 0) := by ring
+    rw [t]
+    have := abs_add_le (val (mul X (basis 0 0)) - val X * val (basis 0 0)) (val X * val (basis 0 0) - T1 l 0 p * bq 0 0)
+    linarith
+  · have hm := mul_err X (basis 0 0)
+    have hb0 := basis_abs 0 0
+    have hprod : |val X * val (basis 0 0)| ≤ M1 := by
+      rw [abs_mul]
+      calc |val X| * |val (basis 0 0)| ≤ M1 * 1 := mul_le_mul h2 hb0 (abs_nonneg _) (by unfold M1; norm_num)
+        _ = M1 := mul_one _
+    have := abs_add_le (val (mul X (basis 0 0)) - val X * val (basis 0 0)) (val X * val (basis 0 0))
+    simp only [sub_add_cancel] at this
+    have hM1 : 0 ≤ M1 := by unfold M1; norm_num
+    nlinarith
+  · intro hneg
+    have hm := mul_err X (basis 0 0)
+    have hb0 := bq00_pos
+    unfold bq at hb0
+    have hx : val X ≤ 0 := by
+      unfold val
+      have : (X.m : ℚ) ≤ 0 := by exact_mod_cast (le_of_lt hneg)
+      exact mul_nonpos_of_nonpos_of_nonneg this (le_of_lt (two_zpow_pos _))
+    have hp0 : val X * val (basis 0 0) ≤ 0 := mul_nonpos_of_nonpos_of_nonneg hx (le_of_lt hb0)
+    rw [abs_of_nonpos hp0] at hm
+    obtain ⟨_, m2⟩ := abs_le.1 hm
+    nlinarith
+  · intro hpos
+    have hm := mul_err X (basis 0 0)
+    have hb0 := bq00_pos
+    unfold bq at hb0
+    have hx : 0 ≤ val X := by
+      unfold val
+      have : (0 : ℚ) ≤ X.m := by exact_mod_cast (not_lt.1 hpos)
+      exact mul_nonneg this (le_of_lt (two_zpow_pos _))
+    have hp0 : 0 ≤ val X * val (basis 0 0) := mul_nonneg hx (le_of_lt hb0)
+    rw [abs_of_nonneg hp0] at hm
+    obtain ⟨m1, _⟩ := abs_le.1 hm
+    nlinarith
+  · rw [getD_map' _ _ p (by rw [idct1d_size]; exact hp) F32.zero (0, false), hX]
+    rfl
+
+/-- one exact table-based line against the ideal line -/
+theorem line_close (d : List Int) (hb : ∀ v ∈ d, v.natAbs ≤ 2048) (r x : Nat) (hx : x < 8) :
+    |T1 d r x / 2 - R1 d r x| ≤ 8 * (2048 * (9 * u)) ∧ |T1 d r x / 2| ≤ 8 * (2048 * (1 / 2)) := by
+  have hu := u_pos
+  have hu1 : 9 * u ≤ 1 / 2 := by unfold u; norm_num
+  have hbq : ∀ f i, |bq f i / 2| ≤ 1 / 2 := by
+    intro f i
+    rw [abs_div, abs_of_pos (by norm_num : (0 : ℚ) < 2)]
+    have := basis_abs f i
+    unfold bq
+    linarith
+  have hdm : ∀ f i, f < 8 → i < 8 → |dm f i| ≤ 1 := by
+    intro f i hf hi
+    have h1 := tab_close f i hf hi
+    have h2 := hbq f i
+    have := abs_sub_abs_le_abs_sub (dm f i) (bq f i / 2)
+    rw [abs_sub_comm] at h1
+    linarith
+  have e1 : T1 d r x / 2 = ((List.range 8).map fun c => coefQ d r c * (bq c x / 2)).sum := by
+    unfold T1
+    rw [sum_map_div]
+    refine congrArg List.sum (List.map_congr_left fun c _ => ?_)
+    ring
+  rw [e1]
+  constructor
+  · have := sum_close (fun c => coefQ d r c) (fun c => coefQ d r c) (fun c => bq c x / 2) (fun c => dm c x) 0 (9 * u) 2048 1
+      (le_refl _) (by positivity) (by norm_num) (by norm_num) (List.range 8)
+      (by
+        intro c hc
+        rw [List.mem_range] at hc
+        exact ⟨by simp, tab_close c x hc hx, coefQ_abs d hb r c, hdm c x hc hx⟩)
+    simp only [List.length_range] at this
+    unfold R1
+    have e : ((8 : Nat) : ℚ) * (2048 * (9 * u) + 0 * 1) = 8 * (2048 * (9 * u)) := by push_cast; ring
+    rw [e] at this
+    exact this
+  · have := sum_bound (fun c => coefQ d r c) (fun c => bq c x / 2) 2048 (1 / 2) (by norm_num) (List.range 8)
+      (by intro c _; exact ⟨coefQ_abs d hb r c, hbq c x⟩)
+    simp only [List.length_range] at this
+    exact_mod_cast this
+
+/-- the shortcut value at line position `p`, against a reference sample whose ideal value is `R1 l 0 p * dm 0 q` -/
+theorem line_core (l : List Int) (hb : ∀ v ∈ l, v.natAbs ≤ 2048) (p q : Nat) (hp : p < 8) (hq : q < 8) (s : Int)
+    (hs : (s : ℚ) / ((S : ℚ) * (S : ℚ)) = R1 l 0 p * dm 0 q) :
+    ((((idct1d (l.toArray.map F32.ofInt)).map finishRow).getD p (0, false)).1 - clip (-256) 255 (roundDiv s (S * S))).natAbs ≤ 1 := by
+  have hu := u_pos
+  obtain ⟨X, Y, _, hY1, hY2, hneg, hpos, hval⟩ := line_value l hb p hp
+  rw [hval]
+  simp only
+  have hfin := finish_bound' Y X (2 * M1) hY2 hneg hpos
+  have hrd := roundDiv_err s (S * S) (by unfold S; norm_num)
+  have hSS : ((S * S : Int) : ℚ) = (S : ℚ) * (S : ℚ) := by push_cast; rfl
+  rw [hSS, hs] at hrd
+  obtain ⟨lc1, lc2⟩ := line_close l hb 0 p hp
+  have htc := tab_close 0 q (by norm_num) hq
+  rw [bq0_const q hq] at htc
+  have hdmq : |dm 0 q| ≤ 1 := by
+    have h2 : |bq 0 0 / 2| ≤ 1 / 2 := by
+      rw [abs_div, abs_of_pos (by norm_num : (0 : ℚ) < 2)]
+      have := basis_abs 0 0
+      unfold bq
+      linarith
+    have := abs_sub_abs_le_abs_sub (dm 0 q) (bq 0 0 / 2)
+    rw [abs_sub_comm] at htc
+    have hu1 : 9 * u ≤ 1 / 2 := by unfold u; norm_num
+    linarith
+  -- exact table value against the ideal value
+  have htab : |T1 l 0 p * bq 0 0 / 4 - R1 l 0 p * dm 0 q| ≤ 8 * (2048 * (1 / 2)) * (9 * u) + 8 * (2048 * (9 * u)) * 1 := by
+    have e : T1 l 0 p * bq 0 0 / 4 - R1 l 0 p * dm 0 q =
+        (T1 l 0 p / 2) * (bq 0 0 / 2 - dm 0 q) + (T1 l 0 p / 2 - R1 l 0 p) * dm 0 q := by ring
+    rw [e]
+    have t1 : |(T1 l 0 p / 2) * (bq 0 0 / 2 - dm 0 q)| ≤ 8 * (2048 * (1 / 2)) * (9 * u) := by
+      rw [abs_mul]; exact mul_le_mul lc2 htc (abs_nonneg _) (by norm_num)
+    have t2 : |(T1 l 0 p / 2 - R1 l 0 p) * dm 0 q| ≤ 8 * (2048 * (9 * u)) * 1 := by
+      rw [abs_mul]; exact mul_le_mul lc1 hdmq (abs_nonneg _) (by positivity)
+    have := abs_add_le ((T1 l 0 p / 2) * (bq 0 0 / 2 - dm 0 q)) ((T1 l 0 p / 2 - R1 l 0 p) * dm 0 q)
+    linarith
+  have hnum : 1 / 2 + (2 * M1 * u + u) + (M1 * u + E1) / 4 + (8 * (2048 * (1 / 2)) * (9 * u) + 8 * (2048 * (9 * u)) * 1) + 1 / 2 < 2 := by
+    simp only [M1, E1, u]; norm_num
+  have hclose : |((trunc (add (quarter Y) (halfSignum X)) : Int) : ℚ) - ((roundDiv s (S * S) : Int) : ℚ)| < 2 := by
+    have e : ((trunc (add (quarter Y) (halfSignum X)) : Int) : ℚ) - ((roundDiv s (S * S) : Int) : ℚ) =
+        (((trunc (add (quarter Y) (halfSignum X)) : Int) : ℚ) - val Y / 4) + (val Y / 4 - T1 l 0 p * bq 0 0 / 4) +
+        (T1 l 0 p * bq 0 0 / 4 - R1 l 0 p * dm 0 q) + (R1 l 0 p * dm 0 q - ((roundDiv s (S * S) : Int) : ℚ)) := by ring
+    rw [e]
+    have h4 : |val Y / 4 - T1 l 0 p * bq 0 0 / 4| ≤ (M1 * u + E1) / 4 := by
+      rw [← sub_div, abs_div, abs_of_pos (by norm_num : (0 : ℚ) < 4)]
+      exact div_le_div_of_nonneg_right hY1 (by norm_num)
+    rw [abs_sub_comm] at hrd
+    have a1 := abs_add_le ((((trunc (add (quarter Y) (halfSignum X)) : Int) : ℚ) - val Y / 4) +
+      (val Y / 4 - T1 l 0 p * bq 0 0 / 4) + (T1 l 0 p * bq 0 0 / 4 - R1 l 0 p * dm 0 q))
+      (R1 l 0 p * dm 0 q - ((roundDiv s (S * S) : Int) : ℚ))
+    have a2 := abs_add_three (((trunc (add (quarter Y) (halfSignum X)) : Int) : ℚ) - val Y / 4)
+      (val Y / 4 - T1 l 0 p * bq 0 0 / 4) (T1 l 0 p * bq 0 0 / 4 - R1 l 0 p * dm 0 q)
+    linarith
+  have hint : (trunc (add (quarter Y) (halfSignum X)) - roundDiv s (S * S)).natAbs ≤ 1 := by
+    have : |(((trunc (add (quarter Y) (halfSignum X)) - roundDiv s (S * S) : Int)) : ℚ)| < 2 := by
+      push_cast; exact hclose
+    rw [← Int.cast_abs] at this
+    have h2 : |trunc (add (quarter Y) (halfSignum X)) - roundDiv s (S * S)| < 2 := by exact_mod_cast this
+    rw [abs_lt] at h2
+    omega
+  unfold toI16Clamp clip
+  simp only
+  generalize trunc (add (quarter Y) (halfSignum X)) = t at hint ⊢
+  generalize roundDiv s (S * S) = n at hint ⊢
+  split <;> split <;> (try split) <;> (try split) <;> omega
+
+/-- the 8x8 block whose first row is `l` (index 8*row + column) -/
+def rowBlock (l : List Int) : Blk := Array.ofFn (n := 64) fun i => if i.val / 8 = 0 then l.getD (i.val % 8) 0 else 0
+/-- the 8x8 block whose first column is `l` -/
+def colBlock (l : List Int) : Blk := Array.ofFn (n := 64) fun i => if i.val % 8 = 0 then l.getD (i.val / 8) 0 else 0
+
+theorem sum_range8 (f : Nat → ℚ) : ((List.range 8).map f).sum = f 0 + f 1 + f 2 + f 3 + f 4 + f 5 + f 6 + f 7 := by
+  have : List.range 8 = [0, 1, 2, 3, 4, 5, 6, 7] := by decide
+  rw [this]
+  simp only [List.map_cons, List.map_nil, List.sum_cons, List.sum_nil]
+  ring
+
+theorem coefQ_toList (b : Blk) (r c : Nat) : coefQ b.toList r c = ((b.getD (8 * r + c) 0 : Int) : ℚ) := by
+  unfold coefQ
+  simp [Array.getD_eq_getD_getElem?, List.getD_eq_getElem?_getD]
+
+theorem rowBlock_coef (l : List Int) (r c : Nat) (hr : r < 8) (hc : c < 8) :
+    coefQ (rowBlock l).toList r c = if r = 0 then coefQ l 0 c else 0 := by
+  rw [coefQ_toList]
+  unfold rowBlock
+  rw [getD_ofFn, dif_pos (by omega)]
+  simp only
+  have e1 : (8 * r + c) / 8 = r := by omega
+  have e2 : (8 * r + c) % 8 = c := by omega
+  rw [e1, e2]
+  unfold coefQ
+  split <;> simp
+
+theorem colBlock_coef (l : List Int) (r c : Nat) (hr : r < 8) (hc : c < 8) :
+    coefQ (colBlock l).toList r c = if c = 0 then coefQ l 0 r else 0 := by
+  rw [coefQ_toList]
+  unfold colBlock
+  rw [getD_ofFn, dif_pos (by omega)]
+  simp only
+  have e1 : (8 * r + c) / 8 = r := by omega
+  have e2 : (8 * r + c) % 8 = c := by omega
+  rw [e1, e2]
+  unfold coefQ
+  split <;> simp
+
+theorem R2_rowBlock (l : List Int) (x y : Nat) : R2 (rowBlock l).toList x y = R1 l 0 x * dm 0 y := by
+  have h0 : R1 (rowBlock l).toList 0 x = R1 l 0 x := by
+    unfold R1
+    refine congrArg List.sum (List.map_congr_left fun c hc => ?_)
+    rw [List.mem_range] at hc
+    rw [rowBlock_coef l 0 c (by norm_num) hc]; simp
+  have hz : ∀ r, 1 ≤ r → r < 8 → R1 (rowBlock l).toList r x = 0 := by
+    intro r h1 h8
+    unfold R1
+    have : ((List.range 8).map fun c => coefQ (rowBlock l).toList r c * dm c x) = (List.range 8).map fun _ => (0 : ℚ) := by
+      refine List.map_congr_left fun c hc => ?_
+      rw [List.mem_range] at hc
+      rw [rowBlock_coef l r c h8 hc, if_neg (by omega)]; simp
+    rw [this]; simp
+  unfold R2
+  rw [sum_range8, h0, hz 1 (by norm_num) (by norm_num), hz 2 (by norm_num) (by norm_num), hz 3 (by norm_num) (by norm_num),
+    hz 4 (by norm_num) (by norm_num), hz 5 (by norm_num) (by norm_num), hz 6 (by norm_num) (by norm_num), hz 7 (by norm_num) (by norm_num)]
+  ring
+
+theorem R2_colBlock (l : List Int) (x y : Nat) : R2 (colBlock l).toList x y = R1 l 0 y * dm 0 x := by
+  have h1 : ∀ r, r < 8 → R1 (colBlock l).toList r x = coefQ l 0 r * dm 0 x := by
+    intro r hr
+    unfold R1
+    rw [sum_range8]
+    rw [colBlock_coef l r 0 hr (by norm_num), colBlock_coef l r 1 hr (by norm_num), colBlock_coef l r 2 hr (by norm_num),
+      colBlock_coef l r 3 hr (by norm_num), colBlock_coef l r 4 hr (by norm_num), colBlock_coef l r 5 hr (by norm_num),
+      colBlock_coef l r 6 hr (by norm_num), colBlock_coef l r 7 hr (by norm_num)]
+    simp
+  unfold R2
+  have : ((List.range 8).map fun r => R1 (colBlock l).toList r x * dm r y) =
+      (List.range 8).map fun r => (coefQ l 0 r * dm r y) * dm 0 x := by
+    refine List.map_congr_left fun r hr => ?_
+    rw [List.mem_range] at hr
+    rw [h1 r hr]; ring
+  rw [this]
+  unfold R1
+  rw [sum_range8, sum_range8]
+  ring
+
+open H263V.Lemmas.AnnexA in
+/-- **first-row shortcut, every block of its shape** -/
+theorem horiz_within_one (l : List Int) (hb : ∀ v ∈ l, v.natAbs ≤ 2048) (i : Nat) (hi : i < 64) :
+    ((shapeIdct (.horiz l)).getD i 0 - (refIdct (rowBlock l)).getD i 0).natAbs ≤ 1 := by
+  have hx : i % 8 < 8 := Nat.mod_lt _ (by norm_num)
+  have hy : i / 8 < 8 := by omega
+  obtain ⟨s, hs1, hs2⟩ := ref_value (rowBlock l) (i % 8) (i / 8) hx hy
+  have hi8 : 8 * (i / 8) + i % 8 = i := by omega
+  rw [hi8] at hs1
+  rw [R2_rowBlock] at hs2
+  rw [hs1]
+  have hm : (shapeIdct (.horiz l)).getD i 0 = (((idct1d (l.toArray.map F32.ofInt)).map finishRow).getD (i % 8) (0, false)).1 := by
+    unfold shapeIdct blockResidual
+    simp only
+    rw [getD_ofFn, dif_pos hi]
+  rw [hm]
+  exact line_core l hb (i % 8) (i / 8) hx hy s hs2
+
+open H263V.Lemmas.AnnexA in
+/-- **first-column shortcut, every block of its shape** -/
+theorem vert_within_one (l : List Int) (hb : ∀ v ∈ l, v.natAbs ≤ 2048) (i : Nat) (hi : i < 64) :
+    ((shapeIdct (.vert l)).getD i 0 - (refIdct (colBlock l)).getD i 0).natAbs ≤ 1 := by
+  have hx : i % 8 < 8 := Nat.mod_lt _ (by norm_num)
+  have hy : i / 8 < 8 := by omega
+  obtain ⟨s, hs1, hs2⟩ := ref_value (colBlock l) (i % 8) (i / 8) hx hy
+  have hi8 : 8 * (i / 8) + i % 8 = i := by omega
+  rw [hi8] at hs1
+  rw [R2_colBlock] at hs2
+  rw [hs1]
+  have hm : (shapeIdct (.vert l)).getD i 0 = (((idct1d (l.toArray.map F32.ofInt)).map finishRow).getD (i / 8) (0, false)).1 := by
+    unfold shapeIdct blockResidual
+    simp only
+    rw [getD_ofFn, dif_pos hi]
+  rw [hm]
+  exact line_core l hb (i / 8) (i % 8) hy hx s hs2
+
 end H263V.Lemmas.IdctErr
